@@ -13,7 +13,7 @@ RULE = ("random spectra (integer counts, 40% zeros, fractional values with a tot
         "shape: (1) the combined `sfs view` call vs piping through single-option calls (-O npy between steps, text at the "
         "end): stdout must be byte-identical; (2) the combined call vs the model's view_run within 0.5e-6 + 1e-9*sum; (3) "
         "`--mask-monomorphic` alone zeroes exactly the first and last entry; `--normalize` alone sums to one within 1e-9 "
-        "and preserves ratios; no options reproduces the input text. non-trivial = at least two options set; the projection target spelled --project-shape, -p / --project-individuals, with '=' attached")
+        "and preserves ratios; no options reproduces the input text. non-trivial = at least two options set; the projection target spelled --project-shape, -p / --project-individuals, with '=' attached; spectra of 65539, 2^20+5 and 1025x1025 entries through view, directly and via npy")
 
 
 def fmt(l):
@@ -197,6 +197,23 @@ def check(rep, tier, seed):
             rep.fail(kind="cli-vs-model", cls="view:error-expected", case=case[:300], argv=["sfs"] + job[0], stdin=job[1].decode(),
                      observed={"rc": rc, "stdout": so.decode(errors="replace")[:300], "stderr": se.decode(errors="replace")[-200:]}, expected=m[:100],
                      detail="inadmissible marginalization list / projection target: sfs view must fail with a diagnostic and without output")
+    # spectra larger than any block a writer or reader might work in (2^16 and 2^20 values and a little more): `view` without
+    # options reproduces its input to the printed precision - every value, separated from its neighbours - and the chain
+    # through npy gives the same bytes as the single invocation
+    from common import run_cli_many as _rcm_big
+    for nbig, shp in ((65536 + 3, [65539]), (2**20 + 5, [2**20 + 5]), (1025 * 1025, [1025, 1025])) if True else ():
+        vals_big = [str((7 * i + i // 1000) % 10) for i in range(nbig)]
+        txt_big = ("#SHAPE=<%s>\n%s\n" % ("/".join(map(str, shp)), " ".join(vals_big))).encode()
+        (rc1, so1, se1), (rc2, so2, se2) = _rcm_big([(["view", "--precision", "0"], txt_big), (["view", "-O", "npy"], txt_big)], timeout=600)
+        (rc3, so3, se3), = _rcm_big([(["view", "--precision", "0"], so2)], timeout=600)
+        rep.count("view-large", "shape %s" % shp, True, n=3)
+        if rc1 != 0 or so1 != txt_big or rc2 != 0 or rc3 != 0 or so3 != txt_big:
+            got = so1 if (rc1 != 0 or so1 != txt_big) else so3
+            k_ = next((i for i, (x, y) in enumerate(zip(got, txt_big)) if x != y), min(len(got), len(txt_big)))
+            rep.fail(kind="property-oracle", cls="view:large", case="view --precision 0 on a spectrum of shape %s (%d integer entries)" % (shp, nbig), argv=["sfs", "view", "--precision", "0"],
+                     observed={"rc": [rc1, rc2, rc3], "bytes": len(got), "first difference at byte": k_, "there": got[max(0, k_ - 20):k_ + 20].decode(errors="replace")},
+                     expected={"bytes": len(txt_big), "there": txt_big[max(0, k_ - 20):k_ + 20].decode()},
+                     detail="a large spectrum does not come back from `view` (directly or through npy) as it went in (replay: values (7*i + i//1000) % 10 for i in range(n), one line)")
     rep.assumptions += ["intermediate files are npy (lossless, C07); the same float operations in the same order make the chained and the "
                         "combined outputs byte-identical", "normalisation of an all-zero spectrum (0/0) is outside the theorems and not generated"]
 
